@@ -183,6 +183,13 @@ def eval_jsonfield(case):
             want[f] = nv
             if not same(want, fields(u)):
                 bad('update-result', f, f'update({f}={nv!r}) gave {fields(u)} expected {want}')
+            # "a new value": editing a list-valued field of the result in place must not reach the original
+            touched = [f2 for f2, val in u.__dict__.items() if isinstance(val, list) and f2 != f]
+            for f2 in touched:
+                u.__dict__[f2].append(u.__dict__[f2][0] if u.__dict__[f2] else 'x')
+            if touched and (not same(before, fields(x)) or x.to_json() != text):
+                bad('update-aliases-original', touched[0], f'after update({f}=...) the list in field {touched[0]} of the result is the original\'s own list object')
+                x = cls(**{f2: copy.deepcopy(dom[f2][i2]) for f2, i2 in sel})
     try:
         u0 = cls.update(x)
         if u0 is x or not same(before, fields(u0)):
